@@ -35,6 +35,7 @@ DISTS = ["pal2", "pal4", "pal16", "pal32", "pal33", "pal40", "uniform9", "unifor
 MODES = ["palette", "direct", "zero_runs", "uncompressed", "wtrunc", "grc_switch", "palette_restart", "slice_32767"]
 MAX_VIOLATIONS_PER_CLAUSE = 12
 MAX_CRASHES_PER_SHARD = 4
+DIED = ("crashed", "undecodable")
 
 
 def asan_env():
@@ -99,7 +100,7 @@ def run_jobs(run, so, jobs, asan, nproc=8, timeout=3000):
                 json.dump(todo, f)
             p = subprocess.run([PY, "-m", "harness.c07_worker", so, jp, op], cwd=VERIF, env=env, capture_output=True,
                                text=True, timeout=timeout, errors="replace")
-            started, done = [], {}
+            started, done, decoding = [], {}, set()
             if os.path.exists(op):
                 with open(op) as f:
                     for ln in f:
@@ -109,6 +110,8 @@ def run_jobs(run, so, jobs, asan, nproc=8, timeout=3000):
                             continue        # torn last line of a dead process
                         if "start" in o:
                             started.append(o["start"])
+                        elif "decoding" in o:
+                            decoding.add(o["decoding"])
                         else:
                             done[o["id"]] = o
             with lock:
@@ -126,7 +129,9 @@ def run_jobs(run, so, jobs, asan, nproc=8, timeout=3000):
                 raise MachineryError("c07 worker raised: " + p.stderr[-2500:])
             cid = culprit[-1]
             with lock:
-                results[cid] = {"id": cid, "outcome": "crashed", "signature": crash_signature(p.returncode, p.stderr),
+                # died inside the reference decoder: the encoder returned a stream that cannot be decoded
+                results[cid] = {"id": cid, "outcome": "undecodable" if cid in decoding else "crashed",
+                                "signature": crash_signature(p.returncode, p.stderr),
                                 "stderr_tail": crash_excerpt(p.stderr + "\n" + p.stdout), "len": 0}
             todo = [j for j in rest if j["id"] != cid]
             if attempt >= MAX_CRASHES_PER_SHARD:
@@ -313,8 +318,8 @@ def replay_requests(run, col, name, jobs, builds, nproc):
             run.evaluated()
             for m in r.get("modes", ()):
                 modes[m] = modes.get(m, 0) + 1
-            if r["outcome"] == "crashed" or job.get("mode") != "py":
-                if r["outcome"] == "crashed" and "w" not in r:
+            if r["outcome"] in DIED or job.get("mode") != "py":
+                if r["outcome"] in DIED and "w" not in r:
                     # weights are needed by TLC to decide which clause a crash violates
                     from ..c07_worker import gen_weights
                     if "w" in job:
@@ -324,7 +329,8 @@ def replay_requests(run, col, name, jobs, builds, nproc):
                         n = c["od"] * c["kh"] * c["kw"] * c["id"] if c else job["n"]
                         r["w"] = gen_weights(job["gen"], n).tolist() if n <= 20000 else []
                         if n > 20000:       # too large for a trace line: in-range by construction of the generators
-                            col.add("MemorySafe", job, b, r.get("signature", ""), r.get("signature"))
+                            col.add("MemorySafe" if r["outcome"] == "crashed" else "LosslessInHardwareOrder", job, b,
+                                    "process died: " + r.get("signature", ""), r.get("signature"))
                             continue
                 obs = (r["outcome"], r.get("len"), r.get("dec"), r.get("signature"))
                 if obs in seen:
@@ -364,8 +370,12 @@ def judge(run, col, name, events, meta, parallel=4):
         if clause in ("MalformedObservation", "PyOrderMatchesSpec"):
             raise MachineryError("trace batch %s: %s for record %s" % (name, clause, json.dumps(events[t])[:400]))
         job, b, r = meta[t]
-        if r["outcome"] == "crashed":
-            col.add(clause, job, b, "process died: %s\n%s" % (r["signature"], r.get("stderr_tail", "")), r["signature"])
+        if r["outcome"] in DIED:
+            if len(events[t]["w"]) <= 12:
+                job = {k: v for k, v in job.items() if k not in ("gen", "n")}
+                job["w"] = events[t]["w"]       # short generated input: identify the case by the input itself
+            col.add(clause, job, b, "process died%s: %s\n%s" % (" in the reference decoder" if r["outcome"] == "undecodable"
+                                                               else "", r["signature"], r.get("stderr_tail", "")), r["signature"])
         else:
             col.add(clause, job, b, "outcome=%s stream length=%s decoded[:12]=%s" % (r["outcome"], r.get("len"),
                                                                                    r.get("dec", [])[:12]))
@@ -393,15 +403,15 @@ def raw_family(run, col, builds, maxlen, nproc):
         res = by_build[b]
         e = res[empty_job["id"]]
         empty_case = [[], e["outcome"], e.get("dec", []), e.get("len", 0)]
-        if e["outcome"] == "crashed":
+        if e["outcome"] in DIED:
             crashes[(b, ())] = (e["signature"], e.get("stderr_tail", ""))
         groups = []
-        dead = [j for j in jobs if res[j["id"]].get("outcome") in ("crashed", "skipped")]
+        dead = [j for j in jobs if res[j["id"]].get("outcome") in DIED + ("skipped",)]
         incomplete = len(dead) > 3
         isolated = []
         for j in jobs:
             r = res[j["id"]]
-            if r.get("outcome") in ("crashed", "skipped"):
+            if r.get("outcome") in DIED + ("skipped",):
                 if r["outcome"] == "skipped" or len(isolated) >= 3:
                     continue
                 # a whole group died: isolate the sequence by running its members one by one
@@ -411,7 +421,7 @@ def raw_family(run, col, builds, maxlen, nproc):
                 cases = [[s["w"], sr[s["id"]]["outcome"], sr[s["id"]].get("dec", []), sr[s["id"]].get("len", 0)]
                          for s in single if sr[s["id"]]["outcome"] != "skipped"]
                 for s in single:
-                    if sr[s["id"]]["outcome"] == "crashed":
+                    if sr[s["id"]]["outcome"] in DIED:
                         crashes[(b, tuple(s["w"]))] = (sr[s["id"]]["signature"], sr[s["id"]].get("stderr_tail", ""))
                 isolated.append(cases)
                 incomplete = incomplete or len(cases) != len(single)
@@ -699,6 +709,8 @@ def replay(path):
     builds = {"gcc": codec.build(), "asan": codec.build(sanitize=True)}
     b = rp.get("build", "gcc")
     col = Collector(run)
+    hits = []
+    run.violation = lambda key, what, obj: hits.append(key)      # a replay reports, it does not write new replay files
     ev, meta, _ = replay_requests(run, col, "replay", [job], {b: builds[b]}, 1)
     for t, e in enumerate(ev):
         e["t"] = t
@@ -706,7 +718,7 @@ def replay(path):
         if meta[t][2].get("signature"):
             print("crash:", meta[t][2]["signature"])
     judge(run, col, "replay", ev, meta, 1)
-    for key, what, _ in run.violations:
+    for key in hits:
         print("STILL VIOLATED:", key)
     run.cleanup()
-    return 1 if run.violations else 0
+    return 1 if hits else 0
